@@ -4,7 +4,7 @@ PROP = dict(
     level="proof",
     lean_modules=["PopsModel.Props.C08", "PopsModel.Props.NonVacuous.Calendar"],
     theorems=["Pops.C08_yearly", "Pops.C08_yearly_once", "Pops.C08_end_of_year", "Pops.C08_monthly", "Pops.C08_nsteps",
-              "Pops.C08_spread", "Pops.C08_frequency", "Pops.C08_index_bijection", "Pops.C08_weather", "Pops.C08_config_wiring"],
+              "Pops.C08_spread", "Pops.C08_frequency", "Pops.C08_config_own_n", "Pops.C08_index_bijection", "Pops.C08_weather", "Pops.C08_config_wiring"],
     commands=["yearly", "eoy", "monthly", "nsteps", "final", "spread", "fromstring", "weather", "actionstep", "count", "cfgsched"],
     runs={
         "quick": [("h_date", "sched", 0, 3000), ("h_date", "config", 0, 1500), ("h_date", "tables", 0, 94)],
